@@ -30,6 +30,10 @@ CHECKS = {
    technique="bounded symbolic execution of the real Go writer/reader (go/ssa -> SMT bit-vectors, real bytes.Buffer code) over symbolic payload bytes and a symbolic stall position of the transport; z3 decides every path's delivery assertion; counterexamples replayed natively",
    text="slip.Writer.WritePacket and slip.Reader.ReadPacket run symbolically on 1 or 2 packets of 1..3 fully symbolic bytes each (all 24 length/stall cases): the packets read back are the packets written, in order, both with a transport that never stalls and with one that returns (0, nil) once at any read index (prefix fragments concatenated as SlipMuxReader does). SlipMuxWriter/SlipMuxReader: symbolic frame byte in each class (diagnostic, IPv4, IPv6, other valid) with 0..2 symbolic payload bytes, and a 4-byte CoAP message with one symbolic byte through the real FCS-16 append/check; frame type and payload are delivered. FCS-16: one table step equals the bitwise CRC-16/X-25 step for all 2^24 (fcs, byte) pairs.",
    note="Trusted: go/ssa, the executor (validated per run by native replay of path models), z3 5.1.0; sync.Mutex is a no-op. The reader requests one byte per Read, so chunking of the stream is unobservable apart from zero-length reads, which are modelled explicitly. Longer packets, more than two packets, more than one stall, and CRC reasoning over fully symbolic CoAP messages are outside the bound."),
+ "C20": dict(engine=E1, category="model_checking", design="DESIGN.md#C20",
+   technique="bounded symbolic execution of one emulator step (real decoder, real bus, real execInst; go/ssa -> SMT bit-vectors) from a fully symbolic machine state, compared by z3 with reference ISA semantics written in the harness; counterexamples replayed natively",
+   text="(*riscv64.CPU).StepRun and (*riscv32.CPU).StepRun, with the real riscv.DecodeEx and device.Bus, run symbolically for one step from an arbitrary machine state: all 32 integer registers, PC, two FP register bit patterns, the loaded memory word and the instruction word (constrained to one mnemonic's spec pattern, register and immediate bits free) are symbolic. For each of the 63 RV32I/RV64I/M mnemonics, on every path where the emulator reports success, the integer registers as subsequently read, the PC, the load address/size, the memory write (address, size, value) and the FP registers equal the reference semantics written from the RISC-V unprivileged specification. One query per assertion and path covers all 2^(32*64+...) states.",
+   note="Trusted: the reference semantics and instruction patterns in the harness (from the spec listing, independent of Wa's table), go/ssa, the executor (validated per run by native replay of path models), z3 5.1.0. riscv.AsmSyntax/AsString (error formatting) are opaque stubs. MULH/MULHSU/MULHU (reported unsupported by the emulator), CSR/privileged/atomic/FP instructions, devices other than RAM and multi-step behaviour are outside. LoongArch emulator: see DESIGN.md#C20."),
  # ---CHECKS-END---
 }
 NA = {
